@@ -28,6 +28,9 @@ import (
 type SubQueryBuilder struct {
 	qc   query.LogicalPlanCreator
 	stmt *influxql.SelectStatement
+	// outerBinOp: the sub-query is an operand of a PromQL binary operation. Its series are matched by
+	// their full label sets, so the dimensions of the aggregation above the operation must not reach it.
+	outerBinOp bool
 }
 
 func (b *SubQueryBuilder) newSubOptions(ctx context.Context, opt *query.ProcessorOptions) (query.ProcessorOptions, error) {
@@ -60,7 +63,7 @@ func (b *SubQueryBuilder) newSubOptions(ctx context.Context, opt *query.Processo
 	}
 	subOpt.NoPushDownDim = opt.NoPushDownDim
 	// use dimPushDown: 1.noPromQuery 2.PromQuery agg by(xx) call(mst[range])
-	if (!opt.PromQuery && !opt.NoPushDownDim) || subOpt.GroupByAllDims && subOpt.Range > 0 {
+	if (!opt.PromQuery && !opt.NoPushDownDim) || subOpt.GroupByAllDims && subOpt.Range > 0 && !b.outerBinOp {
 		pushDownDimension := GetInnerDimensions(opt.Dimensions, subOpt.Dimensions)
 		subOpt.Dimensions = pushDownDimension
 		for d := range opt.GroupBy {
